@@ -78,12 +78,12 @@ def run(ctx):
             ps = ctx.find_calls(g, r"^core::str::<impl str>::parse$")
             ok = len(ps) == 1 and mir.callee_info(ps[0][1]).get("targs") == [ty] and ctx.expr(g, ps[0][1]["args"][0]) == "a1"
             ctx.ob("C11.F.quoted-parser", g.key, "str::parse::<%s>(s)" % ty, ok, "%s" % [(mir.callee_info(t).get("targs"), ctx.expr(g, t["args"][0])) for _, t in ps])
-            rs = [e for _, e in ctx.ret_exprs(g)]
+            rs = ctx.ret_values(g)
             ok = len(rs) == 1 and rs[0].startswith("core::result::Result::<T, E>::map_err(core::str::<impl str>::parse(a1), closure ")
             ctx.ob("C11.F.quoted-error-converted", g.key, "parse(..).map_err(|_| unknown_value(s))", ok, "returns %s" % [r[:120] for r in rs])
             cl = [c for c in gb[1:]]
             okc = len(cl) == 1 and [e for _, e in ctx.ret_exprs(cl[0])] == ["darling_core::error::Error::unknown_value(s)"] or len(cl) == 1 and re.match(r"^darling_core::error::Error::unknown_value\(", ([e for _, e in ctx.ret_exprs(cl[0])] or [""])[0])
-            ctx.ob("C11.F.quoted-error-kind", g.key, "unknown_value", bool(okc), "%s" % [[e for _, e in ctx.ret_exprs(c)] for c in cl])
+            ctx.ob("C11.F.quoted-error-kind", g.key, "unknown_value", bool(okc), "%s" % [ctx.ret_values(c) for c in cl])
             forbid_scan(ctx, "C11.no-lossy-construct", g, gb)
         # the impl overrides exactly {from_string, from_value}
         core = ctx.core("on")
@@ -93,11 +93,11 @@ def run(ctx):
     # ---------------------------------------------------------------- bool / char / String / PathBuf
     f, _ = bodies_of(ctx, "bool", "from_word")
     if f:
-        rs = [e for _, e in ctx.ret_exprs(f)]
+        rs = ctx.ret_values(f)
         ctx.ob("C11.G.bool-word-is-true", f.key, "return", rs == ["core::result::Result::Ok{true}"], "returns %s" % rs)
     f, _ = bodies_of(ctx, "bool", "from_bool")
     if f:
-        rs = [e for _, e in ctx.ret_exprs(f)]
+        rs = ctx.ret_values(f)
         ctx.ob("C11.G.bool-literal-identity", f.key, "return", rs == ["core::result::Result::Ok{a1}"], "returns %s" % rs)
     f, fb = bodies_of(ctx, "bool", "from_string")
     if f:
@@ -105,7 +105,7 @@ def run(ctx):
         ctx.ob("C11.F.bool-quoted-parser", f.key, "str::parse::<bool>", len(ps) == 1 and mir.callee_info(ps[0][1]).get("targs") == ["bool"], "%s" % [mir.callee_info(t).get("targs") for _, t in ps])
     f, _ = bodies_of(ctx, "char", "from_char")
     if f:
-        rs = [e for _, e in ctx.ret_exprs(f)]
+        rs = ctx.ret_values(f)
         ctx.ob("C11.G.char-literal-identity", f.key, "return", rs == ["core::result::Result::Ok{a1}"], "returns %s" % rs)
     f, _ = bodies_of(ctx, "char", "from_string")
     if f:
@@ -118,7 +118,7 @@ def run(ctx):
     for ty, conv in (("alloc::string::String", r"to_string\(a1\)|ToString>::to_string\(a1\)"), ("std::path::PathBuf", r"Into<.*>>::into\(a1\)|PathBuf.*from\(a1\)|into\(a1\)")):
         f, _ = bodies_of(ctx, ty, "from_string")
         if f:
-            rs = [e for _, e in ctx.ret_exprs(f)]
+            rs = ctx.ret_values(f)
             ok = len(rs) == 1 and rs[0].startswith("core::result::Result::Ok{") and bool(re.search(conv, rs[0])) or len(rs) == 1 and rs[0] == "core::result::Result::Ok{a1}"
             ctx.ob("C11.G.string-as-it-stands", f.key, "return", ok, "returns %s" % rs)
     return ctx.finish(
